@@ -2,7 +2,8 @@
     Only statements; every proof is [exact] of a lemma in Proofs/. The functions named
     r1_* / s1_* are the Gallina translations regenerated from /repo on every run. *)
 From Coq Require Import Reals Floats Bool.
-From Geo Require Import Base.GoPrim Base.F64 Gen.R1 Proofs.C19_R1.
+From Geo Require Import Base.GoPrim Base.F64 Gen.R1 Gen.S1 Proofs.C19_R1.
+From Geo Require Import Proofs.C19_S1 Proofs.C19_S1_Union Proofs.C19_S1_Inter Proofs.C19_S1_Rel Proofs.C19_S1_Ops.
 Local Open Scope R_scope.
 
 (** r1.Interval ------------------------------------------------------------ *)
@@ -57,3 +58,108 @@ Theorem r1_empty_iff_no_member : forall i, wf1 i ->
   (r1_Interval_IsEmpty i = true <-> forall p, nonnan p -> ~ mem1 i p).
 Proof. exact isempty_spec. Qed.
 Print Assumptions r1_empty_iff_no_member.
+
+(** s1.Interval ------------------------------------------------------------
+    Points of the circle are reals x with -pi <= x <= pi ([inrange], pi being the float
+    constant math.Pi), -pi and pi denoting the same point; [mem_s1 i x] is membership of
+    the point in the interval (defined in Proofs/C19_S1.v without reference to the code);
+    [valid_s1] is the specification-side validity, equal to the code's IsValid. All
+    operands range over every valid representation: normal, inverted, empty, full,
+    singleton, endpoints at +-pi. *)
+Theorem s1_isvalid_is_validity : forall i, s1_Interval_IsValid i = true <-> valid_s1 i.
+Proof. exact valid_iff. Qed.
+Print Assumptions s1_isvalid_is_validity.
+
+Theorem s1_contains_is_membership : forall i p, valid_s1 i -> vpt p ->
+  (s1_Interval_Contains i p = true <-> mem_s1f i p).
+Proof. exact s1_contains_mem. Qed.
+Print Assumptions s1_contains_is_membership.
+
+Theorem s1_empty_iff_no_member : forall i, valid_s1 i ->
+  (s1_Interval_IsEmpty i = true <-> forall x, inrange x -> ~ mem_s1 i x).
+Proof. exact s1_isempty_spec. Qed.
+Print Assumptions s1_empty_iff_no_member.
+
+Theorem s1_full_iff_every_member : forall i, valid_s1 i ->
+  (s1_Interval_IsFull i = true <-> forall x, inrange x -> mem_s1 i x).
+Proof. exact s1_isfull_spec. Qed.
+Print Assumptions s1_full_iff_every_member.
+
+Theorem s1_union_contains_both : forall a b x, valid_s1 a -> valid_s1 b -> inrange x ->
+  mem_s1 a x \/ mem_s1 b x -> mem_s1 (s1_Interval_Union a b) x.
+Proof. exact s1_union_sound. Qed.
+Print Assumptions s1_union_contains_both.
+
+Theorem s1_intersection_contains_common : forall a b x, valid_s1 a -> valid_s1 b -> inrange x ->
+  mem_s1 a x -> mem_s1 b x -> mem_s1 (s1_Interval_Intersection a b) x.
+Proof. exact s1_intersection_complete. Qed.
+Print Assumptions s1_intersection_contains_common.
+
+Theorem s1_intersection_nothing_outside_both : forall a b x, valid_s1 a -> valid_s1 b -> inrange x ->
+  mem_s1 (s1_Interval_Intersection a b) x -> mem_s1 a x \/ mem_s1 b x.
+Proof. exact s1_intersection_within. Qed.
+Print Assumptions s1_intersection_nothing_outside_both.
+
+Theorem s1_intersection_exact_when_connected : forall a b x, valid_s1 a -> valid_s1 b -> inrange x ->
+  ~ (mem_s1f a (s1_Interval_Lo b) /\ mem_s1f a (s1_Interval_Hi b)) ->
+  (mem_s1 (s1_Interval_Intersection a b) x <-> mem_s1 a x /\ mem_s1 b x).
+Proof. exact s1_intersection_exact_unless_two_arcs. Qed.
+Print Assumptions s1_intersection_exact_when_connected.
+
+(** "exactly the common points" is false of s1 (by design: two arcs are not an interval) *)
+Theorem s1_intersection_exactness_refuted : exists a b p,
+  s1_Interval_IsValid a = true /\ s1_Interval_IsValid b = true /\
+  s1_Interval_Contains (s1_Interval_Intersection a b) p = true /\
+  s1_Interval_Contains b p = false.
+Proof. exact s1_intersection_not_exact. Qed.
+Print Assumptions s1_intersection_exactness_refuted.
+
+Theorem s1_contains_interval_iff_subset : forall a b, valid_s1 a -> valid_s1 b ->
+  (s1_Interval_ContainsInterval a b = true <-> forall x, inrange x -> mem_s1 b x -> mem_s1 a x).
+Proof. exact s1_contains_interval_spec. Qed.
+Print Assumptions s1_contains_interval_iff_subset.
+
+Theorem s1_intersects_iff_common_point : forall a b, valid_s1 a -> valid_s1 b ->
+  (s1_Interval_Intersects a b = true <-> exists x, inrange x /\ (mem_s1 a x /\ mem_s1 b x)).
+Proof. exact s1_intersects_spec. Qed.
+Print Assumptions s1_intersects_iff_common_point.
+
+Theorem s1_addpoint_keeps_everything : forall i p x, valid_s1 i -> vpt p -> inrange x ->
+  mem_s1 i x \/ normR x = normR (rank p) -> mem_s1 (s1_Interval_AddPoint i p) x.
+Proof. exact s1_addpoint_sound. Qed.
+Print Assumptions s1_addpoint_keeps_everything.
+
+Theorem s1_project_lands_inside : forall i p, valid_s1 i -> vpt p -> s1_Interval_IsEmpty i = false ->
+  vpt (s1_Interval_Project i p) /\ mem_s1f i (s1_Interval_Project i p).
+Proof. exact s1_project_inside. Qed.
+Print Assumptions s1_project_lands_inside.
+
+Theorem s1_complement_covers_everything : forall i x, valid_s1 i -> inrange x ->
+  mem_s1 i x \/ mem_s1 (s1_Interval_Complement i) x.
+Proof. exact s1_complement_covers. Qed.
+Print Assumptions s1_complement_covers_everything.
+
+Theorem s1_complement_shares_only_endpoints : forall i x, valid_s1 i -> inrange x ->
+  mem_s1 i x -> mem_s1 (s1_Interval_Complement i) x ->
+  normR x = normR (rank (s1_Interval_Lo i)) \/ normR x = normR (rank (s1_Interval_Hi i)).
+Proof. exact s1_complement_overlap_only_endpoints. Qed.
+Print Assumptions s1_complement_shares_only_endpoints.
+
+Theorem s1_point_pair_contains_both : forall p q, vpt p -> vpt q ->
+  mem_s1f (s1_IntervalFromPointPair p q) p /\ mem_s1f (s1_IntervalFromPointPair p q) q.
+Proof. exact s1_from_point_pair_contains. Qed.
+Print Assumptions s1_point_pair_contains_both.
+
+Theorem s1_results_valid : forall a b p q, valid_s1 a -> valid_s1 b -> vpt p -> vpt q ->
+  valid_s1 (s1_Interval_Union a b) /\ valid_s1 (s1_Interval_Intersection a b) /\
+  valid_s1 (s1_Interval_AddPoint a p) /\ valid_s1 (s1_Interval_Complement a) /\
+  valid_s1 (s1_IntervalFromPointPair p q) /\ valid_s1 (s1_IntervalFromEndpoints p q) /\
+  valid_s1 s1_EmptyInterval /\ valid_s1 s1_FullInterval.
+Proof.
+  intros a b p q Ha Hb Hp Hq.
+  exact (conj (s1_union_valid a b Ha Hb) (conj (s1_intersection_valid a b Ha Hb)
+        (conj (s1_addpoint_valid a p Ha (proj1 Hp)) (conj (s1_complement_valid a Ha)
+        (conj (s1_from_point_pair_valid p q Hp Hq) (conj (s1_from_endpoints_valid p q Hp Hq)
+        (conj s1_empty_valid s1_full_valid))))))).
+Qed.
+Print Assumptions s1_results_valid.
